@@ -26,7 +26,7 @@ const EXCLUDED: &[&str] = &[
     // the tag words themselves (checked against the attached-map model below)
     "tags", "with-tags", "insert-tag", "remove-tag", "get-tag",
     // printing / formatting words that honour the formatting tag
-    "print", "println", ".s", "concat", "join", "str>number",
+    "print", "println", ".s", "concat", "join",
     // inherently non-deterministic or external
     "random", "random-bits", "read-all", "write-all", "exec-piped", "exit",
     // reads a name from the source text at run time
@@ -78,11 +78,19 @@ impl C13 {
     }
 }
 
+thread_local! {
+    /// str>number takes its base from the formatting tag: its arguments get tag maps without that tag
+    static NO_FMT_TAG: std::cell::Cell<bool> = std::cell::Cell::new(false);
+}
+
 fn str_map(rng: &mut Rng, depth: usize) -> Xmap {
     // tag maps use string keys only (maps with keys of different types are C12's known finding)
     let mut m = Xmap::new();
     for _ in 0..1 + rng.below(3) {
-        let k = *rng.pick(&["len", "big", "unit", "k", "#fmt", "note"]);
+        let mut k = *rng.pick(&["len", "big", "unit", "k", "#fmt", "note"]);
+        if k == "#fmt" && NO_FMT_TAG.with(|f| f.get()) {
+            k = "fmt";
+        }
         let mut v = match k {
             "#fmt" => Cell::Int(*rng.pick(&[16i128, 2, 8, 10, 16 | 0x100, 16 | 0x200, 2 | 0x800])),
             "len" => Cell::Int(*rng.pick(&[8i128, 16, 3])),
@@ -152,7 +160,7 @@ fn modest_sizes(word: &str, models: &mut Vec<MV>) {
     }
 }
 
-const CLASSES: &[&str] = &["nil", "flag", "int", "big-int", "real", "str", "bits", "bits-unaligned", "vec-int", "vec-mixed", "map", "num-str", "empty-vec"];
+const CLASSES: &[&str] = &["nil", "flag", "int", "big-int", "real", "str", "bits", "bits-unaligned", "vec-int", "vec-mixed", "map", "num-str", "empty-vec", "real-nan"];
 
 fn gen_class(rng: &mut Rng, c: &str) -> MV {
     match c {
@@ -161,6 +169,13 @@ fn gen_class(rng: &mut Rng, c: &str) -> MV {
         "int" => MV::Int(rng.range(-3, 40) as i128),
         "big-int" => MV::Int(*rng.pick(&[i128::MAX, i128::MIN, 1 << 64, -(1 << 63), 255, 256])),
         "real" => MV::Real(*rng.pick(&[0.0, 1.5, -2.25, 1e10, f64::INFINITY, 3.0])),
+        "real-nan" => {
+            if rng.flip() {
+                MV::Real(f64::NAN)
+            } else {
+                MV::Vec(vec![MV::Int(1), MV::Real(f64::NAN)])
+            }
+        }
         "str" => MV::Str(rng.pick(&["", "a", "ab cd", "caf\u{e9}", "k", "len"]).to_string()),
         "num-str" => MV::Str(rng.pick(&["12", "ff", "1.5", "QUJD", "IFBEG==="]).to_string()),
         "bits" => MV::Bits((0..8 * rng.below(5)).map(|_| (rng.next_u64() & 1) as u8).collect()),
@@ -280,6 +295,7 @@ impl C13 {
             obs.count("keyed_map_cases");
         }
         modest_sizes(&word, &mut models);
+        NO_FMT_TAG.with(|f| f.set(word == "str>number"));
         let style = rng.below(4); // which positions get tags
         let mut plain = vec![];
         let mut tagged = vec![];
@@ -304,6 +320,14 @@ impl C13 {
             // no tag ended up anywhere: force one on the top argument
             tagged[2] = tagged[2].with_tags(str_map(&mut rng, 0));
             positions.push('2');
+        }
+        NO_FMT_TAG.with(|f| f.set(false));
+        if idx % 6 != 5 && rng.chance(1, 6) {
+            // the same cell twice (as `dup` or a variable read twice leaves it): the two top arguments share storage
+            plain[1] = plain[2].clone();
+            tagged[1] = tagged[2].clone();
+            positions.push_str("=");
+            obs.count("aliased_argument_pairs");
         }
         let case = format!("{}  on  {}   (tagged copy: {})", word, show_vec(&plain), show_vec(&tagged));
         let a = match run(&self.boot, &plain, &word) {
@@ -393,7 +417,11 @@ impl C13 {
     /// tag words against a (value, attached map) model
     fn tagword_case(&mut self, idx: u64, obs: &mut Obs) {
         let mut rng = Rng::for_case("C13tags", self.seed, idx);
-        let cls = *rng.pick(CLASSES);
+        // (NaN is unequal to itself: the value-unaltered comparison below uses equality, so no NaN here)
+        let mut cls = *rng.pick(CLASSES);
+        while cls == "real-nan" {
+            cls = *rng.pick(CLASSES);
+        }
         let base = gen_class(&mut rng, cls);
         let base_cell = crate::mon::c12::to_cell(&base, &mut None);
         let mut cell = base_cell.clone();
